@@ -1,7 +1,7 @@
 SPECIFICATION Spec
 VIEW View
 CONSTANTS
-  MaxRec = 5
+  MaxRec = 4
   MemSizes = {0, 1, 2, 3}
   FileModes = {TRUE, FALSE}
   Palettes = {}
